@@ -199,6 +199,16 @@ def mw_shapes(tier):
             if n >= 1:
                 for cut in range(0, n + 1):
                     shapes.append(ops[:cut] + [{"k": "nest", "bp": {"ops": ops[cut:] + [route]}}])
+            # two nesting points (three blueprint levels): root word, middle word, inner word + route
+            if n >= 2:
+                for c1 in range(0, n + 1):
+                    for c2 in range(c1, n + 1):
+                        if c1 == 0 and c2 == 0:
+                            continue
+                        if tier == "quick" and not (c1 < c2 or c1 == n or c1 == 1):
+                            continue
+                        shapes.append(ops[:c1] + [{"k": "nest", "bp": {"ops": ops[c1:c2] + [
+                            {"k": "nest", "bp": {"ops": ops[c2:] + [route]}}]}}])
             # bulk route import (`bp.routes(from![..])`) instead of an individually registered route:
             # the imported routes must see exactly the middlewares registered before the import
             if n <= (2 if tier == "quick" else 3):
